@@ -478,9 +478,27 @@ func (ex *Exec) reg(fr *Frame, v ssa.Value) Val {
 		return ex.constVal(x)
 	case *ssa.Global:
 		gp := GlobalPtr{Name: globalName(x), Typ: x.Type().(*types.Pointer).Elem()}
-		if _, isArr := under(gp.Typ).(*types.Array); isArr {
+		if at, isArr := under(gp.Typ).(*types.Array); isArr {
 			l := ex.resolve(gp)
-			return RefPtr{Ref: ex.arrayRefAt(l, ""), Elem: gp.Typ}
+			ref := ex.arrayRefAt(l, "")
+			if init := ex.prog.ArrayInit[gp.Name]; init != nil && ex.globalImmutable(gp.Name) && !ex.axiomSeenKey("arrinit|"+gp.Name) {
+				if lfs := ex.elemRegionNames(at.Elem()); len(lfs) == 1 && (isInteger(at.Elem()) || isBoolean(at.Elem())) {
+					r := lfs[0]
+					reg := ex.ts.Const("H|"+r.name, ex.regionSort(r.lf, true))
+					ex.regionSorts[r.name] = reg.S
+					for k := int64(0); k < at.Len(); k++ {
+						var v Val
+						if c, ok := init[k]; ok {
+							v = ex.constVal(c)
+						} else {
+							v = ex.zeroVal(at.Elem())
+						}
+						ex.axioms = append(ex.axioms, ex.ts.Eq(ex.ts.Select(ex.ts.Select(reg, ref), ex.ts.NumLit(big.NewInt(k), ex.idxSort())), ex.scalarTerm(v, at.Elem())))
+					}
+					ex.note("package-level array " + gp.Name + " keeps its initial contents (never assigned outside init, only sliced or indexed for reading)")
+				}
+			}
+			return RefPtr{Ref: ref, Elem: gp.Typ}
 		}
 		return gp
 	case *ssa.Function:
